@@ -431,6 +431,7 @@ def run_chains(run, cases, impl_exe, model_exe, tier, label):
         cid, names, atoms = c['id'], c['names'], c['atoms']
         rr = random.Random('%s/render' % c['rseed'])
         B.prelude = prelude(names)
+        nbefore = len(B.progs)
         texts = [render_expr(rr, a) for a in atoms]
         k = len(atoms)
         main = combine(c['tree'], texts)
@@ -475,6 +476,7 @@ def run_chains(run, cases, impl_exe, model_exe, tier, label):
         if left:
             B.add('%s/leftin' % cid, '%s in %s' % (jstr(g), left))
         inf['cut'] = cut
+        inf['nprogs'] = len(B.progs) - nbefore
         info[cid] = inf
     B.run()
     model = vlib.run_sharded(model_exe, mlines, timeout=300)
@@ -482,7 +484,8 @@ def run_chains(run, cases, impl_exe, model_exe, tier, label):
     for c in cases:
         cid, names = c['id'], c['names']
         inf = info[cid]
-        run.evaluations += 1
+        run.evaluations += inf['nprogs'] + 1      # programs through the real pipeline + the model case
+        run.count('programs_evaluated', inf['nprogs'])
         replay = {'kind': 'chain', 'names': names, 'atoms': c['atoms'], 'tree': c['tree'], 'rseed': c['rseed'],
                   'program': inf['main']}
 
@@ -762,7 +765,7 @@ def check(run):
     impl_exe = vlib.build_harness()
     model_exe = vlib.build_model('objects')
     cases = corpus_cases()
-    n = 1200 if run.tier == 'quick' else 20000
+    n = 1200 if run.tier == 'quick' else 10000
     for i in range(n):
         crng = random.Random('%s/%s/%d' % (run.seed, ID, i))
         c = gen_chain(crng)
